@@ -39,6 +39,9 @@ def _exec_rev(sc):
     evs = []
     out = {"sc": sc, "env": {"nw": nw, "prior": sc["prior"]}, "events": evs, "error": None}
     try:
+        import z3
+
+        z3.set_param("timeout", 120000)  # an optimisation z3 cannot finish ends as 'unknown' (an observed error) instead of hanging the check
         prior = PreOCF.init_custom({ocf.wstr(w, n): sc["prior"][w - 1] for w in range(1, nw + 1)}, signature=list(sig))
         model = CRevisionModel(prior, [])
         current = {}
